@@ -29,6 +29,7 @@ MANIFEST = dict(
           'the same command lines), '
           'C09_unambiguous (outside the known mechanisms), C09_fallback_transparent_spec (for the specification Spec/Meaning.v and '
           'the model of the level pass, replacing every || by | changes neither the matched lines nor, up to levels, the expected '
+<<<<<<< HEAD
           'items), C09_candidates_monotone_partial; Props/C09c.v: C09_fallback_transparent_complete and C09_candidates_monotone_spec '
           '(every required/allowed candidate of the | variant at a cursor position is one of the || grammar unless Spec/Undercut.v '
           'lists it as undercut by a strictly earlier level, on both tiers: || branches and pieces inside a word), '
@@ -38,6 +39,17 @@ MANIFEST = dict(
           'expressions repeated with permuted alternatives or through definitions), and the || script against the | script in real '
           'bash (same matched lines, candidates monotone in both directions with the undercut exception computed by the extracted '
           'specification).'),
+=======
+          'items), C09_candidates_monotone_partial. Props/C09b.v, on the automata Driver.compile_valid builds: '
+          'C09_fallback_transparent_compiled (the automaton of a grammar and of its | variant accept the same item words up to levels and '
+          'descriptions, match the same typed command lines and expect the same items after them; outside the known mechanisms the walk is '
+          'unique) and C09_unambiguous_compiled (grammar side: two readings of the same typed words have the same continuations). '
+          'The implementation is decided directly: extracted Ambig.find on Rust\'s minimised '
+          'automaton of every generated grammar (biased to || branches and call variants starting with the same literal, within-word '
+          'expressions repeated with permuted alternatives or through definitions), and the || script against the | script in real '
+          'bash (same matched lines, candidates monotone); and Rust\'s minimised automata of g and of bar(g), levels and descriptions erased, '
+          'are both judged against the normal form of g\'s validated tree by the proved judge Spec.Lang.equiv_dfa_expr.'),
+>>>>>>> wp-regex
     design='6 C09',
     technique='Coq-proved decision procedure run on the implementation\'s automaton + differential execution of || vs | scripts in real bash')
 
@@ -157,6 +169,42 @@ def witness_class(dfa_sx, wit, grammar_text):
     if kinds == ['lit', 'sub']:
         return CLASS_LS
     return None
+
+
+def norm_expr(e):
+    """CheckBar.norm on a CHECK tree: levels := 0, descriptions := none, || := |."""
+    k = e[0]
+    if k == 'lit':
+        return ['lit', e[1], '-', '0', e[4]]
+    if k == 'nt':
+        return ['nt', e[1], '0', e[3]]
+    if k == 'cmd':
+        return ['cmd', e[1], e[2], '0', e[4]]
+    if k in ('seq', 'alt', 'fb'):
+        return ['alt' if k == 'fb' else k, e[1]] + [norm_expr(c) for c in e[2:]]
+    if k in ('opt', 'many'):
+        return [k, e[1], norm_expr(e[2])]
+    if k == 'dd':
+        return ['dd', e[1], e[2], norm_expr(e[3])]
+    if k == 'sub':
+        return ['sub', '0', e[2], norm_expr(e[3])]
+    return e
+
+
+def erase_dfa(d):
+    """levels := 0, descriptions := none on the inputs of an automaton and of its within-word automata."""
+    if d[0] != 'dfa':
+        return d
+    def ei(i):
+        if i[0] == 'lit':
+            return ['lit', i[1], '-', '0']
+        if i[0] in ('sub', 'cmd', 'compadd'):
+            return [i[0], i[1], '0']
+        return i
+    return d[:4] + [['inputs'] + [ei(i) for i in d[4][1:]], ['subdfas'] + [erase_dfa(x) for x in d[5][1:]]]
+
+
+ERASED_FUEL = 400000
 
 
 def subword_same_text(dfa_sx):
@@ -281,6 +329,37 @@ def run(ctx, res):
     order = [i for i in order if cases[i][2] is not None] + \
             [i for i in order if cases[i][2] is None and has_fb(i) and verdict[i] is None] + \
             [i for i in order if cases[i][2] is None and has_fb(i) and verdict[i] is not None]
+    # ---- Part 3 (tie for C09_fallback_transparent_compiled): Rust's minimised automata of g and of
+    # bar(g), levels and descriptions erased, both against the normal form of g's validated tree
+    # (the proved judge Spec.Lang.equiv_dfa_expr; denotes (norm e) = erased language, C09_denotes_norm)
+    sel3 = [i for i in order if has_fb(i)][:(300 if quick else 6000)]
+    b3 = [gen.show_grammar(bar_grammar(cases[i][0])).encode('latin-1') for i in sel3]
+    d3 = impl.dump(exe, b3, ['check', 'min'], ['bash'])
+    ereq, eidx = [], []
+    for i, bt, db in zip(sel3, b3, d3):
+        a, b = dumps[i]['bash'], db['bash']
+        if not b.get('MIN', '').startswith('(ok ') or '(unreferenced)' in b['MIN']:
+            counters['bar_variant_rejected'] += 1
+            continue
+        ne = sexp.dump(norm_expr(mspec.check_expr(a['CHECK'])))
+        for st in (a, b):
+            ereq.append('equiv %s %s %d' % (sexp.dump(erase_dfa(sexp.parse(st['MIN'])[1])), ne, ERASED_FUEL))
+        eidx.append((i, bt, a, b))
+    eout = model.run(ereq)
+    for n, (i, bt, a, b) in enumerate(eidx):
+        for k, which in ((0, 'the || grammar'), (1, 'its | variant')):
+            o = eout[2 * n + k]
+            res.evaluations += 1
+            counters['erased_equiv'] = counters.get('erased_equiv', 0) + 1
+            if o == '(equal)':
+                res.traces_validated += 1
+                continue
+            why = ('the minimised automaton of %s, levels and descriptions erased, does not accept the erased language of the '
+                   '|| grammar: %s' % (which, o[:300]))
+            res.violations.append(report.Violation(
+                'C09: ' + why, dict(grammar=texts[i].decode('latin-1'), bar_variant=bt.decode('latin-1'), kind='spec-judgement',
+                                    why=why, minimised_dfa=a['MIN'][:3000], minimised_dfa_bar_variant=b['MIN'][:3000]),
+                found_input=o.startswith('(differ')))
     pos = 0
     chunk = 24 if quick else 64
     longest = 0.0
